@@ -1081,6 +1081,10 @@ where
                 trace!("timer timed out; closing connection");
                 this.flags.insert(Flags::SHUTDOWN);
 
+                // the keep-alive period is over: disarm its timer, otherwise every later poll finds
+                // it expired again and pushes the disconnect deadline below into the future
+                this.ka_timer.clear(line!());
+
                 if let Some(deadline) = this.config.client_disconnect_deadline() {
                     // start shutdown timeout if enabled
                     this.shutdown_timer
